@@ -27,7 +27,7 @@ ASSUMPTIONS = ["sub-tree names end in '/'; a name paired with the rRecurs callba
                "'enabled by' names a toggle of the same table, or (rRecur / rRecurp / rRecurs ports with a one-component "
                "name) a toggle inside the sub-tree it disables ('name/toggle', 'name#N/toggle')",
                "the buffer is large enough (walk_ports' own asserts are off in the pinned build type)",
-               "dispatch of a reported address is demanded when names_ok holds (the hypothesis of C09_dispatchable_names_ok; "
+               "dispatch of a reported address is demanded when names_ok holds (the hypothesis of C09_dispatchable_names_ok_partial; "
                "macro callbacks only) or when no concrete sibling name is a prefix of another and literal characters are "
                "not digits"]
 
@@ -351,7 +351,7 @@ def gen(rng, tier, dist):
         flat = [p for tb in tabs for p in tb]
         bump(dist, "trees-with-subtree-N>=11", 1 if any(p['sub'] is not None and any(k == 'E' and v >= 11 for k, v in p['segs']) for p in flat) else 0)
         bump(dist, "trees-with-leaf-two-hash", 1 if any(p['sub'] is None and pc.n_hash(p['segs']) >= 2 for p in flat) else 0)
-        # the decidable hypothesis of C09_dispatchable, evaluated on this tree (the driver
+        # the decidable hypothesis of C09_dispatchable_names_ok_partial, evaluated on this tree (the driver
         # prints what the extracted Coq function says; macro recursion ports only)
         nok = 1 if pc.names_ok(t) and 'M' not in ek else 0
         bump(dist, "names_ok-trees", nok)
@@ -404,6 +404,25 @@ def gen(rng, tier, dist):
             out.append("walk %s %s %s %d %s %s %s %s nok=%d tg=%s nm=%s" % (et, ek, hx(buf), rt, j(sorted(set(nulladdrs))), j(dis), j(selfoff), offs, nok, j(tgoff), nm))
             bump(dist, "runtime" if rt else "static")
             bump(dist, "pruned-subtrees", len(dis) + len(nulls))
+    # ---- siblings of which a '#N' meets a literal digit (a#4b / a01b): with a leading zero the two
+    # names alias - the known finding dispatch-leading-zero-alias (C09_dispatchable_refuted); with
+    # digits >= N or no leading zero they do not, and the strong reading is demanded and must hold
+    for k in range(6 if tier == "quick" else 150):
+        stem = rng.choice([b"a", b"v", b"os"])
+        n = rng.choice([2, 4, 11])
+        digs = rng.choice([b"01", b"00", b"01", b"9", str(n + 7).encode(), b"001"])
+        tail = rng.choice([b"b", b"x", b"b/c"])
+        args = rng.choice([b"", b"", b":i"])
+        ps = [pc.mk_port([('L', stem), ('E', n), ('L', tail)], args, None, None, kind='L'),
+              pc.mk_port([('L', stem + digs + tail)], args, None, None, kind='L')]
+        if rng.random() < 0.4:
+            ps.append(pc.mk_port([lit("zq")], b"", None, None, kind='L'))
+        if rng.random() < 0.3:
+            ps.reverse()
+        nokv = 1 if pc.names_ok(ps) and 'M' not in kinds_of(ps) else 0
+        bump(dist, "digit-facing-sibling-families")
+        bump(dist, "digit-facing-sibling-families-aliased", 1 if digs[:1] == b"0" and int(digs) < n else 0)
+        out.append("walk %s %s - 0 - - - - nok=%d tg=- nm=-" % (pc.enc_tree(ps), kinds_of(ps), nokv))
     return out
 
 def parse_case(case):
@@ -437,7 +456,63 @@ def tree_ok(t):
             ok = ok and tree_ok(p['sub'])
     return ok
 
+def text_ok(t):
+    """every table satisfies what the property texts ask of names (pc.table_text_ok: documented form,
+    1 <= N, no concrete sibling name a prefix of another) - no names_ok, no digit exclusion"""
+    return pc.table_text_ok(t) and all(text_ok(p['sub']) for p in t if p['sub'] is not None)
+
+def alias_hits(t, rel, ids):
+    """the leaves the address names by structural descent (pc.addressed, C05 spelling: leading
+    zeros accepted), in table order, when the reported port `ids` is one of several and lies
+    behind a level where a '#N' meets a literal digit of a sibling (a#4b / a01b); else None"""
+    hits = sorted((h for h in pc.addressed(t, rel[1:]) if h[1]['sub'] is None), key=lambda h: h[0])
+    if len(hits) < 2 or not any(h[0] == tuple(ids) and h[3] for h in hits):
+        return None
+    return hits
+
+def admits(p, ty):
+    """True / False / None (no verdict: a proper extension of an alternative)"""
+    if b":" not in p['name']:
+        return True
+    alts = alternatives(p['name'])
+    if ty in alts:
+        return True
+    return None if any(ty.startswith(a) for a in alts) else False
+
+def predicted(t, rel, ids, ty):
+    """what the finding dispatch-leading-zero-alias predicts for a reported pair: every leaf the
+    address names is called, in table order (C04: all matching ports), each sees the full address,
+    d.matches = their number.  -> (d part, dl part) in the harness's notation, or None"""
+    hits = alias_hits(t, rel, ids)
+    if hits is None:
+        return None
+    adm = [admits(h[1], ty) for h in hits]
+    if any(a is None for a in adm):
+        return None
+    hits = [h for h, a in zip(hits, adm) if a]
+    me = pc.show_id(canon_id(t, tuple(ids)))
+    tag = [me if h[0] == tuple(ids) else "other" for h in hits]
+    if me not in tag or len(tag) < 2:
+        return None
+    return ("+".join(tag), "+".join("%s@%s" % (x, hx(rel)) for x in tag) + "#%d#%s" % (len(tag), hx(b"/")))
+
+def reached_ids(t, part, with_loc):
+    """the ports a dispatch reached ('other' for ports that are not the reported one)"""
+    if with_loc:
+        part = part.split("#")[0]
+    out = []
+    for x in part.split("+"):
+        x = x.split("@")[0]
+        if x not in ("-", ""):
+            out.append(x if x == "other" else canon_ids(t, x))
+    return out
+
 def spec_check(case, impl):
+    return judge(case, impl, False)
+
+def judge(case, impl, finding):
+    """finding=False: the oracle.  finding=True (classify): the same, but a reported pair the known
+    finding dispatch-leading-zero-alias applies to is compared with what that finding predicts."""
     if impl.startswith("CRASH") or impl == "NOOUT":
         return "crash: the implementation did not answer (%s)" % impl[:200]
     t, buf, rt, nulls, off = parse_case(case)
@@ -461,11 +536,42 @@ def spec_check(case, impl):
     # kinds X Y Z = the macro recursion callbacks under multi-component names: dispatchable
     # since SNIP skips as many components as the name has (C09_multicomponent_macro_pinned_refuted
     # keeps the old behaviour)
-    if tree_ok(t) or nok:
+    kinds = f[2]
+    ids_all = [ids for ids, _ in spec_walk(t, rt, off, nulls, b"/")]
+    strong = tree_ok(t) or nok or (text_ok(t) and 'M' not in kinds)
+    if not strong:
+        # outside every side condition (clashing / undocumented names): the weak reading is still
+        # demanded on EVERY tree - the reported port is among the ports the dispatch reaches, with
+        # every argument alternative, with and without a location buffer
+        d = m["d"].split(";") if m["d"] != "-" else []
+        dl = m["dl"].split(";") if m["dl"] != "-" else []
+        da = m["da"].split(";") if "da" in m and got else []
+        if len(d) != len(got) or len(dl) != len(got) or ("da" in m and len(da) != len(got)):
+            return "dispatch: %d pairs were reported, %d / %d / %d dispatch results came back" % (len(got), len(d), len(dl), len(da))
+        if 'M' not in kinds:
+            for k, (i, a) in enumerate(got):
+                parts = [("no", d[k], False), ("a", dl[k], True)]
+                if da and da[k] != "-":
+                    for x in da[k].split("|"):
+                        ty, _, both = x.partition("!")
+                        noloc, _, wl = both.partition("~")
+                        parts += [("no (arguments ',%s')" % ty, noloc, False), ("a (arguments ',%s')" % ty, wl, True)]
+                for tag, part, wl in parts:
+                    if i not in reached_ids(t, part, wl):
+                        return ("dispatch-weak: %r was reported for port %s; sent as a message with %s location buffer it reached %s - "
+                                "the reported port is not among them" % (a, i, tag, part))
+    if strong:
         d = m["d"].split(";") if m["d"] != "-" else []
         if len(d) != len(got):
             return "dispatch: %d pairs were reported, %d dispatch results came back" % (len(got), len(d))
-        for (i, a), r in zip(got, d):
+        first_ty = lambda ids: alternatives(port_at(t, ids)['name'])[0]
+        pred = lambda a, ids, ty: predicted(t, b"/" + a[len(pre):], ids, ty) if finding else None
+        for (i, a), ids, r in zip(got, ids_all, d):
+            pr = pred(a, ids, first_ty(ids))
+            if pr is not None:
+                if r != pr[0]:
+                    return "dispatch: %r was reported for port %s, sent as a message it reached %s (the known alias predicts %s)" % (a, i, r, pr[0])
+                continue
             if canon_ids(t, r) != i:
                 return "dispatch: %r was reported for port %s, sent as a message it reached %s" % (a, i, r)
         # with a location buffer: the same single port, it sees the full address in d.loc,
@@ -473,9 +579,14 @@ def spec_check(case, impl):
         dl = m["dl"].split(";") if m["dl"] != "-" else []
         if len(dl) != len(got):
             return "dispatch-loc: %d pairs were reported, %d dispatch results (with a location buffer) came back" % (len(got), len(dl))
-        for (i, a), r in zip(got, dl):
+        for (i, a), ids, r in zip(got, ids_all, dl):
             rel = b"/" + a[len(pre):]
             want_dl = "%s@%s#1#%s" % (i, hx(rel), hx(b"/"))
+            pr = pred(a, ids, first_ty(ids))
+            if pr is not None:
+                if r != pr[1]:
+                    return "dispatch-loc: %r reported for port %s; with a location buffer the dispatch gave %s, the known alias predicts %s" % (a, i, r, pr[1])
+                continue
             hit, cnt, after = r.split("#")
             hid = hit.split("@")[0]
             got_dl = "%s@%s#%s#%s" % (canon_ids(t, hid), hit.split("@")[1] if "@" in hit else "", cnt, after)
@@ -500,6 +611,12 @@ def spec_check(case, impl):
                     noloc, _, wl = both.partition("~")
                     if ty != alt.decode():
                         return "dispatch-alternatives: %r: alternative %r was to be sent, %r was" % (a, alt, ty)
+                    pr = pred(a, ids, alt)
+                    if pr is not None:
+                        if (noloc, wl) != pr:
+                            return ("dispatch-alternative: %r was reported for port %s; sent with the arguments ',%s' the dispatch gave %s / %s, "
+                                    "the known alias predicts %s / %s" % (a, i, ty, noloc, wl, pr[0], pr[1]))
+                        continue
                     if canon_ids(t, noloc) != i:
                         return ("dispatch-alternative: %r was reported for port %s; sent with the arguments ',%s' (an alternative the port "
                                 "declares) and no location buffer it reached %s" % (a, i, ty, noloc))
@@ -578,6 +695,19 @@ def nontrivial(case, impl):
     return "23" in f[1] or ",1," in f[1] or f[6] != "-" or f[5] != "-"
 
 def classify(case, impl, failure):
+    """dispatch-leading-zero-alias: a reported address is spelled by a sibling enumeration too (a#4b
+    next to a01b: "01" is an index of a#4b, C05), so the dispatcher calls BOTH ports (C04: every
+    matching port), d.matches counts both.  Granted only when the failure is about a dispatch of a
+    reported pair and the whole oracle, run again with the finding's prediction for exactly the
+    reported pairs it applies to (alias_hits: several leaves named, the reported one behind a level
+    where a '#N' meets a sibling's literal digit; predicted: all of them called in table order,
+    each seeing the full address, matches = their number), accepts the output."""
+    if failure and failure.split(":")[0] in ("dispatch", "dispatch-loc", "dispatch-alternative"):
+        try:
+            if judge(case, impl, True) is None:
+                return "dispatch-leading-zero-alias"
+        except Exception:
+            return None
     return None
 
 TECHNIQUE = ("Coq proofs (structural induction over the port tree and the segments of each name) about a model of walk_ports / "
@@ -593,7 +723,7 @@ LEVEL_TEXT = ("For every well-formed tree ('#N' at any level, leaf names with se
               "C09_oracle_selfoff, C09_pruned_reports_asked_port) - the tie's model computes the pruning from the runtime state "
               "(tg= field) through that model; every reported address is dispatched to the reported port, with and without a location buffer, "
               "for names of the macro shape - sub-tree names of one or more components - and pairwise non-overlapping siblings "
-              "(C09_dispatchable = C09_enumerates + C05 + C04).")
+              "(C09_dispatchable_partial = C09_enumerates + C05 + C04; without the sibling condition: C09_dispatchable_refuted, finding dispatch-leading-zero-alias).")
 LEVEL_NOTE = ("Trusted: Coq kernel, extraction, OCaml driver, harness, generator. The C++ code is modelled by hand "
               "(coq/Ports/WalkModel.v, coq/Ports/EnabledModel.v) and related to the model only by the correspondence run. The "
               "runtime enters the model as the toggles' answers (per table address and toggle name) and the NULL child pointers.")
